@@ -86,7 +86,11 @@ package socks5
 
 //@ func (*Handler).Handle
 //@ prop C21
-//@ after call authenticate let authErr = $ret1
+//@ after[C21,C23] call authenticate let authErr = $ret1
+//@ after[C23] call readRequest let reqErr = $ret1
+//@ after[C23] call readRequest let reqCmd = $ret0.Command
+//@ at[C23] call sendReply assert $2 == 7 && reqCmd != 1 && reqCmd != 3 && reqCmd != 4
+//@ ensures[C23] authErr == nil && reqErr == nil && reqCmd != 1 && reqCmd != 3 && reqCmd != 4 ==> lastReply == 7 && err != nil
 //@ at call handleConnect assert authErr == nil
 //@ at call handleUDPAssociate assert authErr == nil
 //@ at call handleICMPEcho assert authErr == nil
@@ -99,3 +103,49 @@ package socks5
 //@ prop C21
 //@ ensures len(cfg.Authenticators) > 0 ==> result.handler.authenticators == cfg.Authenticators
 //@ ensures len(result.handler.authenticators) > 0
+
+// ---- C23: request parsing is total and exact; replies are well formed ----
+// The client's bytes are the ghost stream inbyte(k); rdpos is the read position
+// (see /verif/contracts/extern/os.spec). p0 below is rdpos on entry.
+
+//@ ghost var lastReply int
+
+//@ func (*Handler).sendReply
+//@ prop C23
+//@ check bounds alloc
+//@ alloc-limit 22
+//@ requires bindIP == nil || len(bindIP) == 4 || len(bindIP) == 16
+//@ modifies lastReply
+//@ at call Write assert len($1) == 10 || len($1) == 22
+//@ at call Write assert $1[0] == 5 && $1[1] == reply && $1[2] == 0
+//@ at call Write assert ($1[3] == 1 && len($1) == 10) || ($1[3] == 4 && len($1) == 22)
+//@ at call Write assert be16($1, len($1) - 2) == bindPort
+//@ after call Write assume lastReply == reply
+//@ ensures lastReply == reply
+
+//@ func (*Handler).readRequest
+//@ prop C23
+//@ check bounds alloc
+//@ alloc-limit 255
+//@ ensures err == nil ==> result != nil && result.Version == 5 && inbyte(old(rdpos)) == 5
+//@ ensures err == nil ==> result.Command == inbyte(old(rdpos) + 1) && result.AddrType == inbyte(old(rdpos) + 3)
+//@ ensures err == nil ==> result.AddrType == 1 || result.AddrType == 3 || result.AddrType == 4
+//@ ensures err == nil && result.AddrType == 1 ==> len(result.RawDest) == 4 && forall i in 0..4: result.RawDest[i] == inbyte(old(rdpos) + 4 + i)
+//@ ensures err == nil && result.AddrType == 1 ==> result.DestPort == inbyte(old(rdpos) + 8) * 256 + inbyte(old(rdpos) + 9)
+//@ ensures err == nil && result.AddrType == 4 ==> len(result.RawDest) == 16 && forall i in 0..16: result.RawDest[i] == inbyte(old(rdpos) + 4 + i)
+//@ ensures err == nil && result.AddrType == 4 ==> result.DestPort == inbyte(old(rdpos) + 20) * 256 + inbyte(old(rdpos) + 21)
+//@ ensures err == nil && result.AddrType == 3 ==> inbyte(old(rdpos) + 4) > 0 && len(result.DestAddr) == inbyte(old(rdpos) + 4)
+//@ ensures err == nil && result.AddrType == 3 ==> forall i in 0..len(result.DestAddr): result.DestAddr[i] == inbyte(old(rdpos) + 5 + i)
+//@ ensures err == nil && result.AddrType == 3 ==> result.DestPort == inbyte(old(rdpos) + 5 + inbyte(old(rdpos) + 4)) * 256 + inbyte(old(rdpos) + 6 + inbyte(old(rdpos) + 4))
+//@ ensures err == nil && (result.AddrType == 1 || result.AddrType == 4) ==> result.DestAddr == ipText(result.DestIP) && result.DestIP == result.RawDest
+
+//@ func (*Handler).handleConnect
+//@ prop C23
+//@ at call Dialer.DialContext assert $3 == joinHostPort(old(req.DestAddr), itoa(old(req.DestPort)))
+//@ at call (*Handler).sendReply assume $3 == nil || len($3) == 4 || len($3) == 16
+//@ note the assume above is A8: a net.TCPAddr reported by the standard library holds a 4- or 16-byte IP
+
+//@ func (*Handler).sendReplyForError
+//@ prop C23
+
+//@ census[C23] Dialer.DialContext in (*Handler).handleConnect
